@@ -408,7 +408,8 @@ def r_comment_text_by_byte_positions(r, prog):
         for bb, j, lhs, rv, st in f.assigns():
             names = [x.get('n') for x in lhs.get('p', []) if isinstance(x, dict) and 'f' in x]
             if names == ['position'] and lhs['l'] == 1 and not f.blocks[bb].get('cleanup') and f.name != 'new':
-                writes.append((f, vexpr(f, rv['a']) if rv['k'] == 'use' else rv['k']))
+                from helpers import _vexpr_def
+                writes.append((f, _vexpr_def(f, ('assign', bb, j, rv), 14, set())))
     good = [w for w in writes if w[1] == '0' or re.match(r'^Add\(arg1\.position,len_utf8\(next\(arg1\.buffer\) as Some\.0\)\)$', w[1])]
     if writes and len(good) == len(writes) and any(w[1] != '0' for w in writes):
         r.ok('the byte position is reset to 0 per line and advanced by len_utf8() of each consumed character (%d writes)' % len(writes))
